@@ -269,3 +269,23 @@ M("c11_empty_container_in_oneline_dict", "C11", "ak/ppobj.py",
 M("c11_float_keyword_check", "C11", "ak/ppobj.py",
   "        elif isinstance(value, Number):\n            return cp.number(str(value))",
   "        elif isinstance(value, Number):\n            return cp.number(str(int(value)) if value == int(value) and abs(value) < 10 else str(value))")
+
+# ---------------------------------------------------------------- C12
+M("c12_dots_len_always_3", "C12", "ak/ppobj.py", "        dots_len = min(3, width)", "        dots_len = 3")
+M("c12_skipped_counts_service_lines", "C12", "ak/ppobj.py",
+  "                1 if not isinstance(tl, self._ServiceLine) else 0", "                1")
+M("c12_last_lines_with_zero", "C12", "ak/ppobj.py",
+  "            last_lines = table_lines[-n_last:] if n_last else []", "            last_lines = table_lines[-n_last:]")
+M("c12_limit_off_by_one", "C12", "ak/ppobj.py",
+  "            and len(table_lines) > n_first + n_last + 1", "            and len(table_lines) > n_first + n_last")
+# (an enum length cache that under-estimates unknown values only makes an unbounded column narrower
+# and its cell truncated with dots: allowed by the letter of C12, so not in the catalogue)
+M("c12_center_filler_sign", "C12", "ak/ppobj.py",
+  "        filler_len = width - CHText.calc_chunks_len(ch_chunks)\n        if filler_len == 0:",
+  "        filler_len = width - CHText.calc_chunks_len(ch_chunks)\n        if filler_len == 0 or (filler_len == -1 and width > 6):")
+M("c12_break_by_compares_first_field_only", "C12", "ak/ppobj.py",
+  "                prev_break_by_values != cur_break_by_values\n",
+  "                prev_break_by_values[:1] != cur_break_by_values[:1]\n")
+M("c12_footer_width_minus_2", "C12", "ak/ppobj.py",
+  "                [cp.text(self.footer)], table_width, ALIGN_LEFT, cp))",
+  "                [cp.text(self.footer)], table_width - 2, ALIGN_LEFT, cp))")
